@@ -113,7 +113,8 @@ def mk : IO Handler := do
     | ["creq", ms, fresh, method, urlStr, urlReq, authz, user, pass] =>
       match parseMethods ms, parseOptBytes fresh, unhex method, unhex urlStr, unhex urlReq,
             parseList authz, unhex user, unhex pass with
-      | some (some ms), some fresh, some m, some us, some ur, some az, some u, some p =>
+      | some ms, some fresh, some m, some us, some ur, some az, some u, some p =>
+        let ms := serverMethods (ms.getD [])
         let c ← st.get
         if c.closed then return "dead"
         let (c', o) := serve H ms u p c fresh { method := m, urlStr := us, urlReq := ur, authz := az }
@@ -131,7 +132,8 @@ def mk : IO Handler := do
           | _ => none
       match parseMethods ms, unhex su, unhex sp, parseOptBytes fresh, unhex method, unhex urlStr,
             unhex urlReq, cred? with
-      | some (some ms), some su, some sp, some fresh, some m, some us, some ur, some cred =>
+      | some ms, some su, some sp, some fresh, some m, some us, some ur, some cred =>
+        let ms := serverMethods (ms.getD [])
         let srv : Conn → Req → Conn × Resp := fun c rq =>
           if c.closed then (c, { status := 0, www := [] })
           else
